@@ -42,7 +42,8 @@ func (r *Rig) StartTLSOrigin() error {
 	if err != nil {
 		return err
 	}
-	l, err := tls.Listen("tcp", "127.0.0.1:0", &tls.Config{Certificates: []tls.Certificate{cert}, NextProtos: []string{"http/1.1"}})
+	r.tlsConfig = &tls.Config{Certificates: []tls.Certificate{cert}, NextProtos: []string{"http/1.1"}}
+	l, err := tls.Listen("tcp", "127.0.0.1:0", r.tlsConfig)
 	if err != nil {
 		return err
 	}
